@@ -269,6 +269,10 @@ fn main() {
         out.count("directed_reload_fault_scenarios", 1);
         let _ = i;
     }
+    // directed: a fault at the END of a merge that ran concurrently with a committed delete; a merge that outlives its writer
+    for (ok, d) in e1::merge_end_fault_after_concurrent_delete() { out.spec_checked(ok, d); }
+    for k in 0..2 { for (ok, d) in e1::merge_outlives_writer(k == 1) { out.spec_checked(ok, d); } }
+    out.count("directed_merge_scenarios", 3);
     // the pipeline model with kill() as the SOURCE has it today (pin KILL_DROPS_RECEIVER): the caller fills the channel, blocks,
     // and the last worker dies -- explored on the model for a few capacities / worker counts / death positions
     for i in 0..(if thorough { 40 } else { 8 }) {
